@@ -259,18 +259,19 @@ def fix_content_steps(shape, exp):
 
 
 def run(ctx):
-    units = ["core", "fx_getters"]
+    units = ["core", "fx_getters", "fx_getters_x"]
     fs = facts.load(*units)
     world = nodes.World(fs, ["pest_typed"])
     ct = tt.ClassTrees(world)
-    ex = tt.load_expect("fx_getters")
-    fxc = fs["fx_getters"]
-    ctx.analysed = {"fixtures": "fx_getters: %s (emit_rule_reference; optimizer on / off; box_only_if_needed)" % ex["modules"]}
+    ctx.analysed = {"fixtures": "fx_getters (emit_rule_reference; optimizer on / off; box_only_if_needed), fx_getters_x (grammar-extras: node "
+                                "tags with tag getters off; optimizer on / off)"}
     rs = ctx.rule("R16-SHAPE", "a getter exists for exactly the rules mentioned outside negative predicates, and its return type is the "
                                "Option / Vec / tuple nesting of those mentions (nested options flattened)")
     rp = ctx.rule("R16-PATH", "each leaf of a getter's body denotes, in order, the position of the corresponding mention in the rule's content type")
-    for mod in ex["modules"]:
-        module = "fx_getters::" + mod
+    for unit, mod in [(u, m) for u in units[1:] for m in tt.load_expect(u)["modules"]]:
+        fxc = fs[unit]
+        ex = tt.load_expect(unit)
+        module = unit + "::" + mod
         fx = tt.Fixture(fxc, module)
         for r in sorted(fx.rules):
             t = fx.inner_type(r)
@@ -310,8 +311,8 @@ def run(ctx):
                     rp.inst(key, fxc.loc(itf.get("sp")), "ok", {"leaf_paths": [str(p) for p in leaf_paths(val)][:6]})
                 else:
                     rp.violate(key, "leaves denote %s, the mentions are at %s (in grammar order)" % (leaf_paths(val), leaf_paths(exp)), fxc.loc(itf.get("sp")))
-    rs.require(60, "getters")
-    rp.require(60, "getters")
+    rs.require(100, "getters")      # 123 today (fx_getters 3 modules + fx_getters_x 2 modules)
+    rp.require(100, "getters")
     # source-level sibling rule: the two Generate impls build getters alike
     from .. import gensib
     rg = ctx.rule("R16-GENSIB", "the raw-AST and optimized-AST generators build getter forests identically for shared operators (R20-GENSIB instances)")
